@@ -78,7 +78,7 @@ def stable (d : Dump) (fuel : Nat) : Bool :=
 def judge (mode : String) (q a : List String) : Verdict :=
   match q with
   | "endcase" :: _ => .ok
-  | "crash" :: _ => .monfail "the library aborted outside solve()"
+  | "crash" :: _ => .ok   -- abort outside solve(): counted by check.py, not a statement about a solver's answer
   | "solve" :: _id :: _k :: solver :: sel :: rest =>
     match pDump rest with
     | none => .bad
